@@ -781,7 +781,15 @@ struct Tr {
           // symbolic length: typed, capacity-bounded element loop instead of CBMC's array-theory model
           Type* ET = nullptr;
           for (unsigned k = 0; k < (id == Intrinsic::memset ? 1u : 2u) && !ET; k++) {
-            Type* PT = CB->getArgOperand(k)->stripPointerCasts()->getType()->getPointerElementType();
+            const Value* SV = CB->getArgOperand(k)->stripPointerCasts();
+            Type* PT        = SV->getType()->getPointerElementType();
+            if (PT->isIntegerTy(8) && isa<CallBase>(SV)) // a fresh chunk (operator new / malloc): typed by what its other users cast it to
+              for (const User* U : SV->users())
+                if (auto* BC = dyn_cast<BitCastInst>(U))
+                  if (BC->getType()->isPointerTy() && !BC->getType()->getPointerElementType()->isIntegerTy(8) && BC->getType()->getPointerElementType()->isSized()) {
+                    PT = BC->getType()->getPointerElementType();
+                    break;
+                  }
             if (PT->isSized() && !PT->isIntegerTy(8) && (PT->isIntegerTy() || PT->isPointerTy() || PT->isFloatingPointTy() ||
                                                          id != Intrinsic::memset))
               ET = PT;
